@@ -74,6 +74,9 @@ class SessionCheck(BaseCheck):
             c.violate(self.prop, 'session-aborted',
                       f"{self.prop}|session-aborted|{out.get('exc_type')}|{out.get('where')}|fast={int(spec['fast'])}",
                       {'exc': out.get('exc'), 'tb': out.get('tb')})
+        if out['status'] == 'harness-exception':
+            from .farm import HarnessError
+            raise HarnessError('exception raised by harness code inside the session:\n' + str(out.get('tb')))
         if out['status'] == 'step-budget':
             c.violate(self.prop, 'step-budget', f"{self.prop}|step-budget|fast={int(spec['fast'])}", {'exc': out.get('exc')})
         res = R.session_result(c, out, spec, fc, self.prop)
